@@ -128,7 +128,7 @@ class AddEnclosingMiddleware(BlockMiddleware):
         if enclosing == '"':
             return f'"{value}"'
         if enclosing == "no-enclosing":
-            return value
+            return str(value)
         raise ValueError(
             f"enclosing must be either '{{' or '\"' or 'no-enclosing', " f"not '{enclosing}'"
         )
